@@ -393,6 +393,19 @@ pub fn directed() -> Vec<Trace> {
             Step::Check { kind: "refeed_tokens".into(), args: serde_json::Value::Null },
         ],
     ));
+    // every pool expression (incl. the regression section), set and fed back, normally and with a repeating id prefix
+    for repeat in [0.0, 1.0] {
+        let mut steps = Vec::new();
+        for e in 0..pools::VALID_EXPRS.len() {
+            if e == pools::EXPR_DUP_AUTHOR_IDS {
+                continue; // has its own scenario (recorded finding)
+            }
+            steps.push(set(ExprRef::Pool(e)));
+            steps.push(set(ExprRef::Feedback));
+            steps.push(cmd("ZoomIn"));
+        }
+        v.push(mk(&format!("every-pool-expression-and-feedback-repeat-{}", repeat), repeat, steps));
+    }
     // duplicate author ids
     v.push(mk("duplicate-author-ids", 0.0, vec![set(ExprRef::Pool(pools::EXPR_DUP_AUTHOR_IDS)), cmd("ZoomIn"), cmd("MoveNext"), cmd("MoveNext")]));
     // bookmarks and routing over every expression with ids
